@@ -27,7 +27,8 @@ def run(c):
               "file without syntax rules or have none; the last Load adds no syntax rule in about a quarter of the histories; "
               "1-5 groups per file, 1-2 Match statements with 1-3 alternatives drawn from a "
               "catalogue of ~80 pattern templates covering every bucket tag plus statement-, expression- and declaration-list "
-              "patterns; filters none / Deadcode / !Deadcode / Const) run over a type-checked kitchen-sink file, generated "
+              "patterns; filters none / Deadcode / !Deadcode / Const / a custom bytecode filter on the type of $x; reports by Report() or a Do() "
+              "handler) run over a type-checked kitchen-sink file, generated "
               "nestings and repository test files; every other random history has 1-2 Load calls that are rejected (a re-declared group "
               "in front of / between / behind new groups, a bundle imported twice under one prefix, a file that does not parse or "
               "type-check, a pattern gogrep rejects), anywhere in the history, sometimes followed by a file that declares the "
@@ -44,7 +45,7 @@ def run(c):
     c.notes += ["comment rules appear with plain regexps only (first matching rule per comment, in load order, after the walk): enough to "
                 "see that merging keeps them; their own semantics is C12's",
                 "Field, FieldList, Comment, CommentGroup (and Bad*) nodes have no gogrep tag and are never offered",
-                "filters are an oracle here (C02/C17 are about them); the oracle evaluates Deadcode and Const independently"]
+                "filters are an oracle here (C02/C17 are about them); the oracle evaluates Deadcode, Const and the custom type filter independently"]
 
     c.build_theories()
     c.require_theories("Ast/*.v", "Engine/Dispatch.v", "Engine/RunState.v", "Engine/MatchEnv.v", "Engine/LoadFail.v", "Engine/Reentrant.v")
